@@ -140,6 +140,15 @@ CHECKS = {
         "UUIDs / DTCLIENT only enter as distinct / valid; entity-looking strings excluded by construction (open known finding)",
         "property-based testing: Hypothesis generation; reference-model oracle + differential between an independent reader and the library's reader",
     ),
+    "C14": (
+        "exploration",
+        "Hypothesis rule-based state machine over 1-3 clients and a scripted in-process server (urllib handlers replaced, cookie and error "
+        "processors real, socket guard): after every call the recorded traffic is compared with a reference model - no traffic on dry "
+        "runs, one POST per expected hop to the expected URL with the right headers, body equal to the dry-run serialisation as a parsed "
+        "story, anonymous profile hops, credentials only to the advertised / configured URL, Cookie header equal to a per-client reference jar.",
+        "urllib transport only; host-only cookies with Path=/; when the service URL comes from a profile cached by a path the model did not follow the service hop is not predicted",
+        "property-based testing: Hypothesis stateful (rule-based machine) with a reference model of expected traffic and cookie jars as invariant",
+    ),
 }
 
 PENDING_REASON = "check not built yet in this round (planned in DESIGN.md §3); not claimed until its machinery exists and is quiet on the unchanged tree"
